@@ -8,6 +8,7 @@
 
 pub mod arc4;
 pub mod blte_dec;
+pub mod bspatch;
 pub mod lookup3;
 pub mod md5;
 pub mod salsa20;
